@@ -47,13 +47,26 @@ def _simp(e):
 
 
 class SInt:
-    __slots__ = ('e',)
+    """Symbolic int.  Normally a z3 Int term `e`.  A *bit-vector backed* SInt
+    (created by fresh_bits) carries `bv` (a 256-bit z3 BitVec, value
+    zero-extended) and `bits` (value < 2**bits, bits <= 255): arithmetic
+    that stays within 255 bits is done in the bit-vector theory (exact, no
+    wrap-around because the bound is tracked); `e` is then BV2Int(bv)."""
+    __slots__ = ('_e', 'bv', 'bits')
 
-    def __init__(self, e):
-        self.e = e
+    def __init__(self, e=None, bv=None, bits=None):
+        self._e = e
+        self.bv = bv
+        self.bits = bits
+
+    @property
+    def e(self):
+        if self._e is None:
+            self._e = z3.BV2Int(self.bv, False)
+        return self._e
 
     def __repr__(self):
-        return 'SInt(%s)' % self.e
+        return 'SInt(%s)' % (self._e if self._e is not None else self.bv)
 
 
 class SReal:
@@ -470,6 +483,8 @@ class Path:
             if kind == 'int':
                 v = m.eval(t, model_completion=True)
                 out[name] = v.as_long()
+            elif kind == 'bits':
+                out[name] = m.eval(t, model_completion=True).as_long()
             elif kind == 'bool':
                 out[name] = z3.is_true(m.eval(t, model_completion=True))
             elif kind == 'real':
